@@ -3,7 +3,7 @@
   models: message.ensureData, message.FlushFrame, message.GetChar, message.GetInt, message.GetInt32,
           message.GetInt64, message.GetUint32, message.GetDouble, message.GetString,
           message.GetStringWithMaxSize, message.PutChar, message.PutInt, message.PutInt32,
-          message.PutInt64, message.PutUint32, message.PutDouble, message.PutString,
+          message.PutInt64, message.PutUint32, message.PutDouble, message.PutString, message.PutStringBytes,
           message.PutStringBytes, message.PutBytes, message.GetBytes, message.GetRemainingBytes,
           message.FinishMessage, message.maxFramePayload
 -/
@@ -219,5 +219,46 @@ def Dec.getVal (encMode : Bool) (d : Dec) : Val → Except Err (Val × Dec)
   | .int _ => match d.getInt with | .ok (v, d1) => .ok (.int v, d1) | .error e => .error e
   | .char _ => match d.getChar with | .ok (c, d1) => .ok (.char c, d1) | .error e => .error e
   | .str _ => match d.getString encMode with | .ok (s, d1) => .ok (.str s, d1) | .error e => .error e
+
+/-- `PutStringBytes`: the same wire bytes as `PutString`; in the branch for strings that do not fit
+    one frame it streams the bytes and then the terminator by TWO `PutBytes` calls (so the frame
+    boundaries may differ from `PutString`'s — e.g. an empty partial frame when the bytes alone are
+    exactly one maximal frame). The short branch is `PutString`'s. -/
+def putStringBytes (enc : Bool) (buf : Bytes) (s : Bytes) : PutRes :=
+  let t := truncNul s
+  let needed := t.length + 1 + (if enc then 8 else 0)
+  if needed > maxFramePayload enc then
+    let r0 : PutRes := if buf.length > 0 then ([], [(buf, false)]) else (buf, [])
+    let r1 := if enc then seqPut r0 (fun b => putInt b ((t.length + 1 : Nat) : Int)) else r0
+    seqPut (seqPut r1 (fun b => putBytes enc b t)) (fun b => putBytes enc b [0])
+  else putString enc buf s
+
+/-! ## doubles: a pair of integers (message.PutDouble / GetDouble, PutFloat / GetFloat, CodeDouble)
+
+  A finite non-zero double is `m · 2^(e − 53)` with a 53-bit mantissa `2^52 ≤ |m| < 2^53`
+  (`math.Frexp` returns the fraction `m / 2^53 ∈ [½, 1)` and the exponent `e`). The wire carries
+  `fracInt = int32(fraction · FracConst)` — truncation towards zero — and `e`, each as an ordinary
+  integer (8 bytes). The model works on the integers `m`, `e`: `encodeDbl` is the EXACT product
+  truncated; Go multiplies in float64 first, which may round the 84-bit product to 53 bits before
+  the truncation — that rounding (and `Frexp` / `Ldexp` themselves) is the declared trusted part;
+  the codec engine checks on every double it sends that the `fracInt` on the wire is within 1 of
+  `encodeDbl` — the hypothesis `NearN` (CedarProofs/CodecDouble.lean, on magnitudes) under which
+  the precision theorem `C14.double_precision` is stated. -/
+
+def twoPow53 : Nat := 9007199254740992
+
+/-- |fracInt| for the mantissa magnitude `n` -/
+def fracOfNat (n : Nat) : Nat := n * fracConst / twoPow53
+
+/-- `PutDouble` on the integer pair: (fracInt, exponent) -/
+def encodeDbl (m e : Int) : Int × Int :=
+  (if m < 0 then -((fracOfNat m.natAbs : Nat) : Int) else ((fracOfNat m.natAbs : Nat) : Int), e)
+
+/-- the two values a double travels as -/
+def dblVals (m e : Int) : List Val := [.int (encodeDbl m e).1, .int (encodeDbl m e).2]
+
+/-- `GetDouble`: the decoded value is `fi / FracConst · 2^ex`; as an exact rational it is the
+    pair (numerator, denominator) scaled by `2^ex` -/
+def decodeDbl (fi ex : Int) : (Int × Nat) × Int := ((fi, fracConst), ex)
 
 end Cedar
